@@ -32,7 +32,7 @@ func init() {
 			{ID: "C01-R1", Title: "every non-open route is registered behind an authenticating wrapper", Decides: "(a) every protected operation is refused without verification", Floor: 6, Run: c01r1},
 			{ID: "C01-R2", Title: "wrapper soundness: the wrapped handler is dominated by a verification predicate", Decides: "(a) refusal, (b) a refusal runs none of the handler", Floor: 1, Run: c01r2},
 			{ID: "C01-R4", Title: "the controller key used for verification is read from storage at that moment (shared with C18-R4)", Decides: "a key that is no longer stored does not verify", Floor: 2, Run: func(c *core.Ctx) { c01r4(c); addedPairingKeepsItsKey(c) }},
-			{ID: "C01-R3", Title: "only pair-verify installs a cryptographer, on the request's own session; session keys derive from the remote address", Decides: "(c) verification is per connection", Floor: 8, Run: func(c *core.Ctx) { c01r3(c); sessionStoredUnderConnectionKey(c) }},
+			{ID: "C01-R3", Title: "only pair-verify installs a cryptographer, on the request's own session; session keys derive from the remote address", Decides: "(c) verification is per connection", Floor: 8, Run: func(c *core.Ctx) { c01r3(c); sessionStoredUnderConnectionKey(c); returnsUndecorated(c, "C01") }},
 			{ID: "C01-R5", Title: "events are written only to sessions subscribed through the authenticated route (shared with C10-R1 and the who-subscribes part of C10-R4)", Decides: "a refused / unverified connection is disclosed no value", Floor: 6, Run: func(c *core.Ctx) { c10r1(c); subscribeCallers(c) }},
 			{ID: "C01-R6", Title: "the cryptographer is installed only behind the controller's own successful answer (shared with C03-R1)", Decides: "a connection whose verification failed keeps being refused", Floor: 3, Run: c03r1},
 		},
